@@ -77,7 +77,7 @@ theorem consistent_channels_perm (s : Sequence) (h : s.checkConsistency = .ok tr
     · split at h
       · cases h
       · split at h
-        · cases h
+        · split at h <;> cases h
         · rename_i chans hchans
           split at h
           · cases h
